@@ -74,17 +74,20 @@ type Report struct {
 }
 
 type ctx struct {
-	prop    string
-	tier    string
-	seed    int64
-	rng     *rng
-	drv     *driver
-	rep     *Report
-	seen    map[[20]byte]bool
-	start   time.Time
-	maxDis  int
-	known   []knownFinding
-	replayD string
+	prop string
+	tier string
+	seed int64
+	// every nativeEvery-th agreeing case is re-evaluated on a Go-native form of its input (0 = off)
+	nativeEvery int
+	nativeCount int
+	rng         *rng
+	drv         *driver
+	rep         *Report
+	seen        map[[20]byte]bool
+	start       time.Time
+	maxDis      int
+	known       []knownFinding
+	replayD     string
 }
 
 func newCtx(prop, tier string, seed int64) (*ctx, error) {
@@ -92,7 +95,7 @@ func newCtx(prop, tier string, seed int64) (*ctx, error) {
 	if err != nil {
 		return nil, err
 	}
-	c := &ctx{prop: prop, tier: tier, seed: seed, rng: newRng(seed), drv: d,
+	c := &ctx{prop: prop, tier: tier, seed: seed, nativeEvery: nativeEveryFor(prop), rng: newRng(seed), drv: d,
 		seen: map[[20]byte]bool{}, start: time.Now(), maxDis: 25}
 	c.rep = &Report{Property: prop, Tier: tier, Seed: seed, SkipReasons: map[string]int{},
 		Buckets: map[string]int{}, Outcomes: map[string]int{}}
@@ -210,6 +213,23 @@ func (c *ctx) diffEval(prog string, input interface{}, bucket string) (string, s
 		return g.outcome, m, false
 	}
 	c.sample(map[string]interface{}{"program": prog, "input": input, "outcome": decodeOutcome(g.outcome)})
+	// metamorphic step: the same document handed over with Go-native types (ints, typed slices, named
+	// strings, pointers) must give the same outcome as its encoding/json form
+	if c.nativeEvery > 0 && input != nil {
+		c.nativeCount++
+		if c.nativeCount%c.nativeEvery == 0 && !nondeterministic(prog) {
+			nat := goNative(c.rng, deepCopy(input))
+			gn := goEval(prog, nat)
+			a, b := g.outcome, gn.outcome
+			if unorderedSensitive(prog) && strings.HasPrefix(a, "ok ") && strings.HasPrefix(b, "ok ") {
+				a, b = canonUnordered(normJSON(g.value)), canonUnordered(normJSON(gn.value))
+			}
+			c.note("native\x00"+prog+"\x00"+in, bucket+"/go-native-input", true)
+			if a != b && !(strings.HasPrefix(a, "err") && strings.HasPrefix(b, "err")) {
+				c.disagree(Disagreement{Kind: "go-native-input", Prog: prog, Input: input, InputS: valueSexp(nat), Go: gn.outcome + "  (input as Go-native values: " + fmt.Sprintf("%#v", nat) + ")", Model: g.outcome + "  (the document as generated: " + fmt.Sprintf("%#v", input) + ")"})
+			}
+		}
+	}
 	return g.outcome, m, true
 }
 
@@ -320,4 +340,20 @@ func jsonSafe(v interface{}) interface{} {
 		}
 		return x
 	}
+}
+
+// nativeEveryFor: how often an agreeing case is re-evaluated on a Go-native form of its input.
+// Off for C03: the comparison operators compare Go values, so 1 (int) = 1 (float64) and
+// [1] = []float64{1} are false on the unchanged tree — the property quantifies over JSON values.
+func nativeEveryFor(prop string) int {
+	switch prop {
+	case "C03":
+		return 0
+	case "C17", "C18", "C19":
+		// strings handed over as *string are accepted by these functions on the unchanged tree
+		if !strings.Contains(nativeClasses, "p") {
+			nativeClasses += "p"
+		}
+	}
+	return 7
 }
